@@ -386,10 +386,7 @@ func ZZHarnessContributionFlow() {
 	members := zzCommitteeIDs[n]
 	f := (n - 1) / 3
 	q := 2*f + 1
-	H := phase0.Slot(3)
-	if k > 0 {
-		H = phase0.Slot(zzNondetRange("dutySlot", 1, 5))
-	}
+	H := phase0.Slot(3) // concrete: the runner sorts the expected roots, which carry the slot
 	epoch := spectypes.PraterNetwork.EstimatedEpochAtSlot(H)
 	seats := []uint64{1, 3}[:nidx]
 	duty := &spectypes.Duty{Type: role, Slot: H, ValidatorIndex: 7, ValidatorSyncCommitteeIndices: seats}
